@@ -16,7 +16,7 @@ Descriptor(D, X, axis, k) ==
         weekyear |-> CivilFromDays(DayOf(key)).y]
   ELSE IF axis \in LocationAxes
   THEN [kind |-> "location", axis |-> axis, id |-> key, lat |-> MetaLat(D, key), lon |-> MetaLon(D, key), elev |-> MetaElev(D, key)]
-  ELSE IF axis = "timeofday" THEN [kind |-> "number", axis |-> axis, value |-> key \div 3600]     \* in hours (whole-hour runs in the report universes)
+  ELSE IF axis = "timeofday" THEN [kind |-> "number", axis |-> "threshold", value |-> 0, center |-> Frac(key, 3600)]     \* in hours (00:30 is 0.5)
   ELSE [kind |-> "number", axis |-> axis, value |-> key]
 
 NanToZero(e) == IF IsUndef(e) \/ (IsQ(e) /\ IsNaN(e.v)) THEN Q(Zero) ELSE e
